@@ -37,7 +37,8 @@ def _cnormal(rng, m):
 
 # families that are supported on indices >= t (the precondition of the preservation clause) are marked in SUPPORT
 FAMILIES = ["complex", "real", "negative", "sparse", "uniform", "product", "halfprod", "basis_any", "zero_child0",
-            "zero_pairs", "neg_repeat", "signed_even", "sup_complex", "sup_real", "sup_sparse", "sup_basis", "sup_target", "sup_uniform", "sup_last"]
+            "zero_pairs", "neg_repeat", "signed_even", "sup_complex", "sup_real", "sup_sparse", "sup_basis", "sup_target", "sup_uniform", "sup_last",
+            "near_equal_blocks"]
 
 
 def make_vector(rng, n, t, fam):
@@ -118,6 +119,14 @@ def make_vector(rng, n, t, fam):
         v[:t] = 0
         if t < N - 1:
             v[t] = 0
+    elif fam == "near_equal_blocks":
+        # two copies of one block, one amplitude rotated by a phase of 3e-6 .. 3e-4: the multiplexer gates of the top level are
+        # nearly, but not exactly, equal (valid input; far above every cut-off of the library)
+        if n < 2:
+            v = _cnormal(rng, N)
+        else:
+            v = np.kron(np.ones(2), _cnormal(rng, N // 2)).astype(complex)
+            v[int(rng.integers(N))] *= 1 + 1j * 10 ** rng.uniform(-5.5, -3.5)
     else:
         raise ValueError(fam)
     return _unit(v)
@@ -150,6 +159,79 @@ def _instrument(gate, flags):
         flags["simplified_diag"] = None
 
 
+class _IdealUcg:
+    """stands in for Qiskit's UCGate in the diagnostic re-run: the ideal multiplexer of the gate list, no residual diagonal"""
+    def __init__(self, size):
+        self._size = size
+        self.dont_carry = []
+        self.controls = []
+
+    def _get_diagonal(self):
+        return np.ones(self._size, dtype=complex)
+
+
+def _ideal_run(cls_name, arg, t, preserve, no_merge=False):
+    """column-t error of the same construction with every UCGate replaced by the ideal multiplexer of its own gate list
+    (and, with no_merge, without the repetition search of the entanglement-aware variant); None when it raises"""
+    from qclib.state_preparation.ucg import UCGInitialize
+    from qclib.state_preparation.ucge import UCGEInitialize
+    from harness import monitors
+
+    def factory(orig):   # pylint: disable=unused-argument
+        def wrapped(self, mux, mult_controls, target):
+            gates = [np.asarray(g, dtype=complex) for g in mux]
+            M = np.zeros((2 * len(gates), 2 * len(gates)), dtype=complex)
+            for k, g in enumerate(gates):
+                M[2 * k:2 * k + 2, 2 * k:2 * k + 2] = g
+            self.circuit.unitary(M, [target] + list(mult_controls))
+            return _IdealUcg(2 * len(gates))
+        return wrapped
+
+    def sfactory(orig):   # pylint: disable=unused-argument
+        def swrapped(self, mux, level):   # pylint: disable=unused-argument
+            return [], list(mux)
+        return swrapped
+    try:
+        with monitors.patched(UCGInitialize, "_apply_ucg", factory):
+            if no_merge:
+                with monitors.patched(UCGEInitialize, "_simplify", sfactory):
+                    circ = _cls(cls_name)(arg, opt_params={"target_state": t, "preserve_previous": preserve}).definition
+            else:
+                circ = _cls(cls_name)(arg, opt_params={"target_state": t, "preserve_previous": preserve}).definition
+        U = Operator(circ).data
+        return float(np.abs(U[:, t] - np.asarray(arg, dtype=complex)).max())
+    except Exception:   # pylint: disable=broad-except
+        return None
+
+
+def _ucgate_cause(cls_name, arg, t, preserve, exc):
+    """Narrow attribution of a failure (recorded as case["cause"]; the known findings are keyed on it):
+      qiskit_ucgate_not_unitary  ValueError 'Input matrix is not unitary' raised inside Qiskit's UCGate (its one-qubit factors fail
+                                 UnitaryGate's check although the gates handed over are unitary to 1e-15)
+      qiskit_ucgate              the case is exact (1e-9) when every Qiskit UCGate is replaced by the ideal multiplexer of the
+                                 gate list qclib handed to it: Qiskit's UCGate does not implement its own gate list there
+      ucge_merge_tolerance       UCGEInitialize only: not exact with ideal multiplexers, but exact (1e-9) with ideal multiplexers
+                                 and without the repetition search (whose np.allclose test merges gates that differ by up to 1e-5)
+      other                      none of these"""
+    import traceback
+    if exc is not None and isinstance(exc, ValueError) and "not unitary" in str(exc):
+        names = [f.name for f in traceback.extract_tb(exc.__traceback__)]
+        files = [f.filename for f in traceback.extract_tb(exc.__traceback__)]
+        if "_dec_ucg" in names or any("generalized_gates" in f for f in files[-4:]):
+            return "qiskit_ucgate_not_unitary"
+    try:
+        e = _ideal_run(cls_name, arg, t, preserve)
+        if e is not None and e < 1e-9:
+            return "qiskit_ucgate"
+        if cls_name == "UCGEInitialize":
+            e = _ideal_run(cls_name, arg, t, preserve, no_merge=True)
+            if e is not None and e < 1e-9:
+                return "ucge_merge_tolerance"
+    except Exception:   # pylint: disable=broad-except
+        return "undiagnosed"
+    return "other"
+
+
 def eval_case(ctx, cls_name, n, t, preserve, fam, vec, real_dtype=False):
     """True iff the property holds for this case.  real_dtype: a real-valued vector handed over as a float64 array."""
     vec = np.asarray(vec, dtype=complex)
@@ -165,8 +247,10 @@ def eval_case(ctx, cls_name, n, t, preserve, fam, vec, real_dtype=False):
         U = Operator(circ).data
     except Exception as e:   # pylint: disable=broad-except
         case.update(flags)
-        ctx.violation(f"{cls_name}(target_state={t}, preserve_previous={preserve}) raised {type(e).__name__}: {str(e)[:120]}",
-                      case)
+        case["cause"] = _ucgate_cause(cls_name, arg, t, preserve, e)
+        case["exception"] = type(e).__name__
+        ctx.violation(f"{cls_name}(target_state={t}, preserve_previous={preserve}) raised {type(e).__name__}: {str(e)[:120]}"
+                      f" [cause: {case['cause']}]", case)
         return False
     case.update(flags)
     ok = True
@@ -176,9 +260,9 @@ def eval_case(ctx, cls_name, n, t, preserve, fam, vec, real_dtype=False):
     err = float(np.abs(U[:, t] - vec).max())
     if not err < TOL:
         ok = False
-        case2 = dict(case, err=err)
+        case2 = dict(case, err=err, cause=_ucgate_cause(cls_name, arg, t, preserve, None), exception=None)
         ctx.violation(f"{cls_name}(target_state={t}, preserve_previous={preserve}): column t of the operator differs "
-                      f"from the vector by {err:.3g}", case2)
+                      f"from the vector by {err:.3g} [cause: {case2['cause']}]", case2)
     if preserve and cls_name == "UCGInitialize" and not vec[:t].any():
         worst, wb = 0.0, -1
         for b in range(t):
